@@ -72,7 +72,9 @@ pub fn eval(ctx: &Ctx, case: &Case) {
             let msg = msg_of(ctx, tag, *msg_len);
             let (ppube, g) = master(&ke);
             let Some(de) = dec_key(&ke, &idb) else { return };
-            let msk = Sm9EncMasterKey { ke: to_limbs(&ke), ppube: lib_g1_affine(&ppube) };
+            // tag ".../Zq=<name>/Zp=<name>": the key objects hold de (G2) and Ppub-e (G1) in those Jacobian representations
+            let zn = z_names(tag);
+            let msk = Sm9EncMasterKey { ke: to_limbs(&ke), ppube: match &zn { Some((_, zp)) => lib_g1(&ppube, &z1_named(zp, ctx.seed)), None => lib_g1_affine(&ppube) } };
             let mut gsm = SplitMix::new(ctx.seed, "c10filler");
             let mut q = vec![cand(&r)];
             for _ in 0..4 {
@@ -126,11 +128,15 @@ pub fn eval(ctx: &Ctx, case: &Case) {
                     return;
                 }
             };
+            let mut key = key;
+            if let Some((zq, _)) = &zn {
+                key.de = lib_g2(&de, &z2_named(zq, ctx.seed));
+            }
             ctx.call();
             match guard(|| key.decrypt(&idb, &ct)) {
                 Guard::Done(Ok(m)) if m == msg => {}
                 other => {
-                    ctx.violation("Sm9EncKey::decrypt", &format!("roundtrip/{}", lc), gdbg(&other), cj());
+                    ctx.violation("Sm9EncKey::decrypt", &format!("roundtrip/{}{}", lc, if zn.is_some() { "/jacobian-key-objects" } else { "" }), gdbg(&other), cj());
                     return;
                 }
             }
@@ -284,10 +290,13 @@ pub const ANNEX_R: &str = "0000AAC0541779C8FC45E3E2CB25C12B5D2576B2129AE8BB5EE2C
 pub fn run(ctx: &Arc<Ctx>) {
     refmodels::selftest::run(&["sm3", "sm9"]).unwrap_or_else(|e| ctx.machinery_error(format!("reference self-test failed: {}", e)));
     let n = sm9::params().n.clone();
-    ctx.set_rule("encryption: every message length 1..=255 with one (master, identity, r); masters {Annex ke, N-2, seeded} x identities {Bob,'',seeded} x nonces {1,2,N-2,Annex r,2^255+1,seeded} at length 20; the GM/T 0044.5 example, nonces crafted so that K1 is all zero (step A6 retry): ciphertext = reference C1||C3||C2 byte for byte for the accepted r (MAC = SM3(C2||K2)), library and reference decryptors recover M. Decryption of reference-made ciphertexts (lengths {1,20}, thorough +{32,255}): untouched must decrypt; every single-bit flip, every truncation, extension, over-long bodies, other identity, foreign tags, C1 off-curve with the original body and with the body recomputed for the foreign point (invalid-curve attack, using the library's own pairing), (0,0) with the original body and with bodies forged for a constant pairing value, unreduced coordinates (all-ones and the v+p aliases of the same point over 12 further nonces), another valid point: all must be refused with an error, never a plaintext, never a panic.");
+    ctx.set_rule("encryption: every message length 1..=255 with one (master, identity, r); masters {Annex ke, N-2, seeded} x identities {Bob,'',seeded} x nonces {1,2,N-2,Annex r,2^255+1,seeded} at length 20; the GM/T 0044.5 example, key objects holding Ppub-e / de in Jacobian representations with structured Z (Z in Fp, purely imaginary, generic), nonces crafted so that K1 is all zero (step A6 retry): ciphertext = reference C1||C3||C2 byte for byte for the accepted r (MAC = SM3(C2||K2)), library and reference decryptors recover M. Decryption of reference-made ciphertexts (lengths {1,20}, thorough +{32,255}): untouched must decrypt; every single-bit flip, every truncation, extension, over-long bodies, other identity, foreign tags, C1 off-curve with the original body and with the body recomputed for the foreign point (invalid-curve attack, using the library's own pairing), (0,0) with the original body and with bodies forged for a constant pairing value, unreduced coordinates (all-ones and the v+p aliases of the same point over 12 further nonces), another valid point: all must be refused with an error, never a plaintext, never a panic.");
     let mut g = SplitMix::new(ctx.seed, "c10");
     let mut cases: Vec<Case> = Vec::new();
     cases.push(Case::Enc { ke: ANNEX_KE.into(), id: "Bob".into(), msg_len: 20, r: ANNEX_R.into(), tag: "annex-example".into() });
+    for (i, zq) in Z2_NAMES.iter().enumerate() {
+        cases.push(Case::Enc { ke: ANNEX_KE.into(), id: "Bob".into(), msg_len: 20, r: ANNEX_R.into(), tag: format!("key-objects/Zq={}/Zp={}", zq, Z1_NAMES[i % Z1_NAMES.len()]) });
+    }
     // ke = H1(Bob||03): Q_B = [H1]P1 + Ppub-e is then a doubling
     let masters: Vec<(String, BigUint)> = vec![("annex".into(), hb(ANNEX_KE)), ("N-2".into(), &n - 2u32), ("seed".into(), g.nonzero_below(&n)), ("H1(ID)".into(), sm9::h1(b"Bob", sm9::HID_ENC))];
     let rs: Vec<(String, BigUint)> = vec![("1".into(), BigUint::one()), ("2".into(), BigUint::from(2u32)), ("N-2".into(), &n - 2u32), ("annex".into(), hb(ANNEX_R)), ("2^255+1".into(), (BigUint::one() << 255usize) + 1u32), ("seed".into(), g.nonzero_below(&(&n - 2u32)))];
